@@ -5,6 +5,7 @@ import json, os, glob, re
 V = os.path.dirname(os.path.dirname(os.path.abspath(__file__)))
 idx = {e['id']: e for e in json.load(open(os.path.join(V, 'selftest', 'index.json')))}
 first = json.load(open(os.path.join(V, 'seeded', 'round2_first_run.json'))) if os.path.exists(os.path.join(V, 'seeded', 'round2_first_run.json')) else {}
+first3 = json.load(open(os.path.join(V, 'seeded', 'round3_first_run.json'))) if os.path.exists(os.path.join(V, 'seeded', 'round3_first_run.json')) else {}
 matrix = json.load(open(os.path.join(V, 'seeded', 'matrix.json')))
 rows = []
 for d in sorted(glob.glob(os.path.join(V, 'seeded', 'C*'))):
@@ -28,5 +29,7 @@ for d in sorted(glob.glob(os.path.join(V, 'seeded', 'C*'))):
     if sid in first:
         f0 = first[sid]
         fr = 'first run: ' + ('caught' if f0.get(sid[:3]) else ('other property only: ' + ','.join(sorted(f0)) if f0 else 'MISSED'))
+    if sid in first3:
+        fr = 'first run: ' + ('caught' if first3[sid].get('own_property_fired_on_first_run') else 'not caught by ' + sid[:3])
     rows.append('| %s | %s | %s%s |' % (sid, what.replace('|', '/'), caught, (' — ' + fr) if fr else ''))
 print('\n'.join(rows))
